@@ -100,7 +100,7 @@ def _guards_for(ctx: Ctx, fn: FuncInfo, operand: str, operators: Optional[Tuple[
                 else:
                     other_ok = False
                 continue
-            if txt in ("self.env.well_typed", "func") or "isinstance(func" in txt:
+            if txt in ("self.env.well_typed", "env.well_typed", "func") or "isinstance(func" in txt:
                 if not branch:
                     other_ok = False
                 continue
@@ -115,14 +115,22 @@ def _guards_for(ctx: Ctx, fn: FuncInfo, operand: str, operators: Optional[Tuple[
     # helpers called with the operand as an argument
     if depth < 2:
         for c in calls(fn.node):
-            if not (isinstance(c.func, ast.Attribute) and path_of(c.func.value) == "self" and fn.cls is not None):
+            if isinstance(c.func, ast.Attribute) and path_of(c.func.value) == "self" and fn.cls is not None:
+                helper = ctx.repo.find_method(fn.cls, c.func.attr)
+                skip = 1
+            elif isinstance(c.func, ast.Name):
+                # a plain function of the package (the check may live next to the node classes)
+                site = ctx.callgraph.by_node.get(id(c))
+                cands = [x for x in (site.callees if site is not None else []) if x.cls is None and x.module.name.startswith("jsonpath")]
+                helper = cands[0] if len(cands) == 1 else None
+                skip = 0
+            else:
                 continue
-            helper = ctx.repo.find_method(fn.cls, c.func.attr)
             if helper is None or helper is fn or helper.name.startswith("parse_"):
                 continue
             for i, a in enumerate(c.args):
                 if path_of(a) == operand:
-                    params = [x.arg for x in helper.node.args.args][1:]
+                    params = [x.arg for x in helper.node.args.args][skip:]
                     if i < len(params):
                         conds = path_conditions(fn.node, c)
                         applies = True
@@ -298,7 +306,9 @@ def r7_2(ctx: Ctx) -> RuleResult:
                    construct=f"comparability of {side}")
     helpers = set(checked.values())
     for h in helpers:
-        param = [a.arg for a in h.node.args.args][1]
+        from .common import follow_delegation
+
+        h, param = follow_delegation(ctx, h, [a.arg for a in h.node.args.args][1])
         raises = [(r, path_conditions(h.node, r)) for r in ast.walk(h.node) if isinstance(r, ast.Raise)]
         nonsing = any(
             any(isinstance_classes(t) == (param, ["Path"]) and b for t, b in conds)
@@ -492,11 +502,11 @@ def _range_events(test: ast.expr, branch: bool) -> List[str]:
     return []
 
 
-def _range_summary(helper: FuncInfo) -> Tuple[Set[str], bool]:
+def _range_summary(helper: FuncInfo, skip: int = 1, expr_events=None) -> Tuple[Set[str], bool]:  # type: ignore[no-untyped-def]
     """(parameters, all-varargs?) that are within the limits whenever `helper` returns normally."""
-    flow = must_flow(helper.node, refine_events=_range_events)
-    params = [a.arg for a in helper.node.args.args][1:]
-    exits = [st for kind, _n, st in flow.exits if st is not None]
+    flow = must_flow(helper.node, refine_events=_range_events, expr_events=expr_events)
+    params = [a.arg for a in helper.node.args.args][skip:]
+    exits = [st for kind, _n, st in flow.exits if st is not None and kind in ("return", "fall")]
     good = {p for p in params if exits and all({f"ge@{p}", f"le@{p}"} <= st for st in exits)}
     var_ok = False
     va = helper.node.args.vararg
@@ -521,16 +531,25 @@ def r7_5(ctx: Ctx) -> RuleResult:
         summaries: Dict[str, Tuple[Set[str], bool, FuncInfo]] = {}
 
         def call_events(e: ast.expr) -> List[str]:
-            if not (isinstance(e, ast.Call) and isinstance(e.func, ast.Attribute) and path_of(e.func.value) == "self"):
+            if not isinstance(e, ast.Call):
                 return []
-            helper = ctx.repo.find_method(cls, e.func.attr)
+            if isinstance(e.func, ast.Attribute) and path_of(e.func.value) == "self":
+                helper = ctx.repo.find_method(cls, e.func.attr)
+                skip = 1
+            else:
+                # a plain function of the package (the check may live in a helper module)
+                site = ctx.callgraph.by_node.get(id(e))
+                cands = [c for c in (site.callees if site is not None else []) if c.cls is None and c.module.name.startswith("jsonpath")]
+                helper = cands[0] if len(cands) == 1 and isinstance(e.func, ast.Name) else None
+                skip = 0
             if helper is None or helper.node is init.node:
                 return []
             if helper.qualname not in summaries:
-                good, var_ok = _range_summary(helper)
+                summaries[helper.qualname] = (set(), False, helper)  # (a helper that calls itself proves nothing by that)
+                good, var_ok = _range_summary(helper, skip, call_events)
                 summaries[helper.qualname] = (good, var_ok, helper)
             good, var_ok, _h = summaries[helper.qualname]
-            hp = [a.arg for a in helper.node.args.args][1:]
+            hp = [a.arg for a in helper.node.args.args][skip:]
             out: List[str] = []
             for i, a in enumerate(e.args):
                 v = path_of(a)
@@ -729,6 +748,22 @@ def r7_7(ctx: Ctx) -> RuleResult:
                         if isinstance(other, ast.Call) and callee_name(other) == "_function_return_type":
                             return (m.name == ret) == positive
                         return (m.name == ptype) == positive
+            if (isinstance(t, ast.Compare) and len(t.ops) == 1 and isinstance(t.ops[0], (ast.In, ast.NotIn)) and isinstance(t.comparators[0], (ast.Tuple, ast.List, ast.Set))
+                    and isinstance(t.left, ast.Call) and callee_name(t.left) == "_function_return_type"):
+                # `self._function_return_type(arg) in (ExpressionType.VALUE, None)`
+                hit = False
+                for elt in t.comparators[0].elts:
+                    if isinstance(elt, ast.Constant) and elt.value is None:
+                        hit = hit or ret is None
+                        continue
+                    try:
+                        m = ctx.folder.eval_in(elt, cw.module, cw.cls)
+                    except NotConst:
+                        return None
+                    if not (isinstance(m, EnumMember) and m.cls is et):
+                        return None
+                    hit = hit or m.name == ret
+                return hit == isinstance(t.ops[0], ast.In)
             return None
 
         ex = Explorer(ctx.folder, per_arg, oracle)
